@@ -70,6 +70,7 @@ func main() {
 		maxPaths := fs.Int("maxpaths", 0, "")
 		noinit := fs.Bool("noinit", false, "")
 		known := fs.String("known", "", "active known keys")
+		decs := fs.String("dec", "", "run only this decision vector (debug)")
 		fs.Parse(os.Args[2:])
 		g := &Group{Pkg: *pkg, Dir: *dir, Harness: strings.Split(*harness, ",")}
 		ov, err := buildOverlay(g, parseKV(*overlay))
@@ -94,6 +95,11 @@ func main() {
 		for k := range parseKV(*known) {
 			active[k] = true
 		}
+		if *decs != "" {
+			es.MaxPaths = 1
+			*workers = 1
+			debugDec = decodeDec(*decs)
+		}
 		res, err := l.Explore(es, active, *workers, *trace)
 		if err != nil {
 			fmt.Println(err)
@@ -108,6 +114,8 @@ func main() {
 		os.Exit(2)
 	}
 }
+
+var debugDec []Dec
 
 func isFlagSet(fs *flag.FlagSet, name string) bool {
 	set := false
